@@ -96,15 +96,17 @@ def _mkfr():
     _sys.modules[m.__name__] = m
     exec("from dataclasses import dataclass\\nfrom typing import List, Dict\\nfrom typing_extensions import TypedDict\\nfrom mashumaro import DataClassDictMixin\\n"
          "@dataclass\\nclass Item(DataClassDictMixin):\\n    v: int = 0\\n"
-         "class FTD(TypedDict):\\n    items: List['Item']\\n    one: Dict[str, 'Item']\\n", m.__dict__)
+         "class FTD(TypedDict):\\n    items: List['Item']\\n    one: Dict[str, 'Item']\\n"
+         "from typing import NamedTuple\\nclass FNT(NamedTuple):\\n    items: List['Item']\\n    n: int = 0\\n", m.__dict__)
     return m
 _FRM = _mkfr()
 FTD = _FRM.FTD
+FNT = _FRM.FNT
 FItem = _FRM.Item
 @dataclass
 class Item(DataClassDictMixin):
     w: int = 7
-''', ["FTD", "List[FTD]"], None),
+''', ["FTD", "List[FTD]", "FNT"], None),
     "local_discriminated": ('''
 from mashumaro.types import Discriminator
 def _ld():
@@ -229,6 +231,7 @@ SAMPLES = {
     "forwardref_other_module": {
         "FTD": ("{'items': [{'v': 1}], 'one': {'k': {'v': 2}}}", "type(v['items'][0]) is FItem and v['items'][0].v == 1 and type(v['one']['k']) is FItem and C(v).to_dict()['x'] == {'items': [{'v': 1}], 'one': {'k': {'v': 2}}}"),
         "List[FTD]": ("[{'items': [{'v': 1}], 'one': {}}]", "type(v[0]['items'][0]) is FItem"),
+        "FNT": ("[[{'v': 1}], 2]", "type(v.items[0]) is FItem and v.items[0].v == 1 and C(v).to_dict()['x'] == [[{'v': 1}], 2]"),
     },
     "generic_with_local_arg": {
         "GBox[LocItem]": ("{'content': {'price': '7'}}", "type(v.content) is LocItem and v.content.price == 7"),
